@@ -1,4 +1,5 @@
 import Regatta.Proofs.Crash
+import Regatta.Extracted.Facts
 /-
   C04 — Crash recovery exposes exactly a prefix of the log, atomically and only once.
 
@@ -131,6 +132,12 @@ theorem c04_d8_old_protocol_unsafe :
   intro h
   obtain ⟨n, hn, hmem, _⟩ := h.1 rfl ⟨some 7, some 7⟩ rfl
   cases hmem
+
+/-- the abstraction "a store holds the state after j log entries, index included" rests on data and
+applied index reaching Pebble in ONE batch commit per apply call: in the current source (fact
+regenerated on every run) the state machine package commits a batch at exactly one place,
+`updateContext.Commit`, which writes the index into the same batch first -/
+theorem c04_single_commit_site : Regatta.Extracted.fsmBatchCommitSites = ["command.go:Commit"] := rfl
 
 /-- non-vacuity: a concrete history — first open, two batches, sync, a checkpoint-format recovery to
 index 9, crash after the rename but before the directory sync of the switch, reopen — is reachable,
